@@ -5,7 +5,11 @@ spec -> code : QuadratureMC.tla enumerates (i) every integer interval / degree w
                expectations every observed rule is projected onto; (ii) every constructor
                argument and call sequence of a QGauss object (SEQ), replayed on ONE real object
                each; (iii) every QGauss2 shape (TENSOR); (iv) every small rational table (TAB);
-               (v) kernel validation cases (KV).
+               (v) kernel validation cases (KV); (vi) every re-entrant / aliasing history on one
+               QGauss object (NEST: calls begun inside an integrand, integrands that keep, re-read and
+               overwrite the abscissa array they were handed); (vii) every shape x representation an
+               integrand may return (RET); (viii) representations of tabulated data (DREP) and of
+               interval end points per entry point (ETYPE).
 code -> spec : what gauleg returned, the rules extracted from the integrators with recording /
                indicator integrands, the call-sequence observations, the tabulated-data results
                and the QGauss2 observations are written as ndjson and judged by
@@ -29,12 +33,13 @@ from ..tlc import cfg
 NEEDS_EXT = True
 
 NPTS = (2, 3, 5)
+NEST_NPTS = (1, 2, 3)  # point counts of the re-entrant histories (1: broadcasts against everything)
 POLY_DEG = 12          # +-1-coefficient polynomials judged exactly by TLC (PolyMoment fits 32 bits)
 NPOLY = 3
 
 BOUNDS = {
-    "quick": dict(AMax=5, KCapX=59, KCapN=59, MaxCalls=3, NMax=4),
-    "thorough": dict(AMax=5, KCapX=59, KCapN=59, MaxCalls=4, NMax=6),
+    "quick": dict(AMax=5, KCapX=59, KCapN=59, MaxCalls=3, NMax=4, MaxNestCalls=2, MaxDepth=2),
+    "thorough": dict(AMax=5, KCapX=59, KCapN=59, MaxCalls=4, NMax=6, MaxNestCalls=3, MaxDepth=3),
 }
 KCAPN_FULL = 399       # thorough: full degree 2n-1 for every n <= 200 on [-1,1]
 
@@ -44,7 +49,8 @@ _T = {}                # spec tables (filled by load_tables, inherited by forked
 # ------------------------------------------------------------------------------------------
 def mc_constants(B, **over):
     c = dict(AMax=B["AMax"], KCapX=B["KCapX"], KCapN=B["KCapN"], NptsSet=set(NPTS), MaxCalls=B["MaxCalls"],
-             Kinds={"func", "data"}, Variant="pinned", NMax=B["NMax"], FixedShapes=True, DoExport=False)
+             Kinds={"func", "data"}, Variant="pinned", NMax=B["NMax"], FixedShapes=True, DoExport=False,
+             NestNpts=set(NEST_NPTS), MaxNestCalls=B["MaxNestCalls"], MaxDepth=B["MaxDepth"], NestVariant="local")
     c.update(over)
     return c
 
@@ -181,20 +187,44 @@ TYPED_INTERVALS = [
     (1, 2 ** 24, 0, "np.float32"), (3, 2 ** 25 + 4, -30, "np.float32"), (-(2 ** 24), 5, 0, "np.float32"), (1, 3, 0, "np.float32"),
     (100, 120, 0, "np.int8"), (-100, -128, 0, "np.int8"), (-3, 5, 0, "np.int8"), (30000, 32000, 0, "np.int16"),
     (200, 250, 0, "np.uint8"), (250, 200, 0, "np.uint8"), (2 ** 28, 2 ** 28 + 2 ** 20, 30, "np.int64"),
-    (-2, 7, 0, "int"), (-1, 1, 0, "np.float64"), (0, 3, 0, "0-d array"), (2 ** 27, 2 ** 27 + 4096, 26, "int"),
+    (-2, 7, 0, "int"), (-3, 5, 0, "float"), (1, 3, -2, "float"), (-1, 1, 0, "np.float64"), (0, 3, 0, "0-d array"), (2 ** 27, 2 ** 27 + 4096, 26, "int"),
 ]
+
+
+NP_DTYPE = {"float": "f8", "int": "i8", "np.float64": "f8", "np.float32": "f4", "np.int8": "i1", "np.int16": "i2", "np.int64": "i8",
+            "np.uint8": "u1", "0-d array": "f8"}
+
+
+def typed_endpoints(a, b, sc, etype):
+    A, Bf = iv(a, b, sc)
+    if not etype:
+        return A, Bf
+    conv = ENDPOINT_TYPES[etype]
+    A, Bf = (conv(a), conv(b)) if sc == 0 else (conv(A), conv(Bf))
+    if float(A) != math.ldexp(a, sc) or float(Bf) != math.ldexp(b, sc):
+        raise MachineryError("end points (%d, %d)*2^%d are not representable as %s" % (a, b, sc, etype))
+    return A, Bf
+
+
+def make_range(a, b, sc, etype=None, cont="list"):
+    """the range argument [xmin, xmax] of an integrator: the lattice interval [a,b]*2^sc with end points of type `etype`
+    in a list, a tuple or (numpy types) an array of that element type - always the same real interval"""
+    A, Bf = typed_endpoints(a, b, sc, etype)
+    if cont == "tuple":
+        return (A, Bf)
+    if cont == "array" and etype != "0-d array":
+        arr = np.array([A, Bf], dtype=NP_DTYPE[etype or "float"])
+        if float(arr[0]) != math.ldexp(a, sc) or float(arr[1]) != math.ldexp(b, sc):
+            raise MachineryError("end points (%d, %d)*2^%d are not representable in an array of %s" % (a, b, sc, etype))
+        return arr
+    return [A, Bf]
 
 
 def obs_gauleg(args):
     a, b, sc, n, seed, kcapn = args[:6]
     etype = args[6] if len(args) > 6 else None
     from esutil.integrate import gauleg
-    A, Bf = iv(a, b, sc)
-    if etype:
-        conv = ENDPOINT_TYPES[etype]
-        A, Bf = (conv(a), conv(b)) if sc == 0 else (conv(A), conv(Bf))
-        if float(A) != math.ldexp(a, sc) or float(Bf) != math.ldexp(b, sc):
-            raise MachineryError("end points (%d, %d)*2^%d are not representable as %s" % (a, b, sc, etype))
+    A, Bf = typed_endpoints(a, b, sc, etype)
     try:
         with np.errstate(all="ignore"), warnings.catch_warnings():
             warnings.simplefilter("ignore")
@@ -225,17 +255,19 @@ def entry_call(entry, n):
     raise KeyError(entry)
 
 
-def extract_rule(call, A, Bf):
-    """the rule an integrator effectively uses on [A,B]: abscissae from a recording integrand,
-    weights from indicator integrands.  returns (xs, ws, lin, err)"""
+def extract_rule(call, A, Bf=None):
+    """the rule an integrator effectively uses on [A,B] (or on the range object A when Bf is None): abscissae from a
+    recording integrand, weights from indicator integrands.  returns (xs, ws, lin, err)"""
     seen = []
+    xr = A if Bf is None else [A, Bf]
 
     def f0(x):
         xa = np.atleast_1d(np.asarray(x, dtype="f8"))
         seen.extend(float(v) for v in xa.ravel())
         return np.zeros_like(np.asarray(x, dtype="f8"))
-    with np.errstate(all="ignore"):
-        r0 = call([A, Bf], f0)
+    with np.errstate(all="ignore"), warnings.catch_warnings():
+        warnings.simplefilter("ignore")
+        r0 = call(xr, f0)
     xs = list(seen)
     if len(set(xs)) != len(xs) or not rq.finite(xs):
         return xs, [float("nan")] * len(xs), [], "none"
@@ -243,8 +275,9 @@ def extract_rule(call, A, Bf):
     for xj in xs:
         def fj(x, xj=xj):
             return np.where(np.asarray(x, dtype="f8") == xj, 1.0, 0.0)
-        with np.errstate(all="ignore"):
-            ws.append(float(call([A, Bf], fj)))
+        with np.errstate(all="ignore"), warnings.catch_warnings():
+            warnings.simplefilter("ignore")
+            ws.append(float(call(xr, fj)))
     lin = [float(r0) == 0.0]
     if rq.finite(ws):
         rng = random.Random(len(xs))
@@ -254,8 +287,9 @@ def extract_rule(call, A, Bf):
             def fy(x, ymap=ymap):
                 xa = np.asarray(x, dtype="f8")
                 return np.array([ymap[float(v)] for v in np.atleast_1d(xa).ravel()]).reshape(xa.shape)
-            with np.errstate(all="ignore"):
-                r = float(call([A, Bf], fy))
+            with np.errstate(all="ignore"), warnings.catch_warnings():
+                warnings.simplefilter("ignore")
+                r = float(call(xr, fy))
             exp = sum(Fraction(ymap[x]) * Fraction(w) for x, w in zip(xs, ws))
             mag = sum(abs(Fraction(ymap[x]) * Fraction(w)) for x, w in zip(xs, ws))
             lin.append(math.isfinite(r) and abs(Fraction(r) - exp) <= (len(xs) + 4) * Fraction(1, 2 ** 52) * mag)
@@ -264,28 +298,98 @@ def extract_rule(call, A, Bf):
 
 
 def obs_integrator(args):
-    entry, a, b, sc, n, seed = args
-    A, Bf = iv(a, b, sc)
+    entry, a, b, sc, n, seed = args[:6]
+    etype, cont = (args[6], args[7]) if len(args) > 6 else (None, "list")
+    xr = make_range(a, b, sc, etype, cont)
     try:
         call = entry_call(entry, n)
-        xs, ws, lin, err = extract_rule(call, A, Bf)
+        xs, ws, lin, err = extract_rule(call, xr)
         if a > b:                                  # stored in evaluation order of t: descending x for a > b
             xs, ws = xs[::-1], ws[::-1]
-        return rule_record(entry, a, b, sc, n, xs, ws, lin=lin, seed=seed)
+        rec = rule_record(entry, a, b, sc, n, xs, ws, lin=lin, seed=seed)
+    except MachineryError:
+        raise
     except Exception as e:  # noqa
-        return rule_record(entry, a, b, sc, n, [], [], err=type(e).__name__, seed=seed)
+        rec = rule_record(entry, a, b, sc, n, [], [], err=type(e).__name__, seed=seed)
+    if etype:
+        rec["etype"], rec["cont"] = etype, cont
+    return rec
 
 
 # ---- tabulated data -------------------------------------------------------------------------
 DATA_UNITS = [(0, 0, 0), (-2, -3, 0), (3, 1, 0), (-1, 0, 5), (0, -2, -3)]     # (x exponent, y exponent, x offset)
 
+# how a column of the table is handed over (QuadratureMC!DataReps): element type / byte order / layout / container.
+# Every value is exactly representable in the representation chosen for it (checked), so the table - and hence the
+# result the specification demands - is the same.
+REP_DTYPE = {"f8": "<f8", "f4": "<f4", "i8": "<i8", "i4": "<i4", "i2": "<i2", "i1": "i1", "u1": "u1", "u2": "<u2", ">f8": ">f8", ">i4": ">i4",
+             "strided": "<f8", "negstride": "<f8", "readonly": "<f8", "list": None, "tuple": None}
+INT_REPS = ("i8", "i4", "i2", "i1", "u1", "u2", ">i4")
+# x offsets that put x.min() + x.max() (or the difference) outside the element type although every x is inside
+TYPED_XOFF = {"i1": 120, "u1": 200, "i2": 32000, "u2": 65000, "i4": 2 ** 31 - 8, ">i4": 2 ** 31 - 8, "f4": 2 ** 24 - 8}
+SIGNED_OF = {"u1": "i1", "u2": "i2"}
+REP_CLASS = {"f8": "plain", "f4": "float32", "i8": "int", "i4": "int", "i2": "small-int", "i1": "small-int", "u1": "unsigned", "u2": "unsigned",
+             ">f8": "byteswapped", ">i4": "byteswapped", "strided": "strided", "negstride": "strided", "readonly": "plain", "list": "sequence",
+             "tuple": "sequence"}
 
-def concretise_tab(tab, variant):
-    """spec table (rational pairs) -> exact rational table + float arrays"""
-    ex, ey, off = DATA_UNITS[variant % len(DATA_UNITS)]
+
+def data_unit(xrep, yrep, variant):
+    """lattice unit (x exponent, y exponent, x offset) admissible for the two representations"""
+    xint, yint = xrep in INT_REPS, yrep in INT_REPS
+    ex, off = ((0, 0), (3, 0), (0, 5), (1, 2))[variant % 4] if xint else ((0, 0), (-2, 0), (3, 0), (-1, 5), (0, -3))[variant % 5]
+    ey = (0, 1, 2)[variant % 3] if yint else (0, -3, 1, 0, -2)[variant % 5]
+    if xrep in TYPED_XOFF and variant % 2 == 1:
+        ex, off = 0, TYPED_XOFF[xrep]
+    return ex, ey, off
+
+
+def as_rep(vals, rep):
+    """exact rationals -> the column in representation `rep`; None when a value is not representable"""
+    fl = [float(v) for v in vals]
+    if any(Fraction(f) != v for f, v in zip(fl, vals)):
+        return None
+    if rep in ("list", "tuple"):
+        seq = [int(v) if v.denominator == 1 and abs(v) < 2 ** 31 and i % 2 else f for i, (f, v) in enumerate(zip(fl, vals))]
+        return seq if rep == "list" else tuple(seq)
+    dt = np.dtype(REP_DTYPE[rep])
+    if dt.kind in "iu":
+        if any(v.denominator != 1 for v in vals):
+            return None
+        info = np.iinfo(dt)
+        if any(v < info.min or v > info.max for v in vals):
+            return None
+        arr = np.array([int(v) for v in vals], dtype=dt)
+    else:
+        arr = np.array(fl, dtype=dt)
+    if [Fraction(float(v)) for v in arr] != list(vals):
+        return None
+    if rep == "strided":
+        big = np.full(2 * len(arr) + 1, -99.0, dtype=dt)
+        big[1::2] = arr
+        arr = big[1::2]
+    elif rep == "negstride":
+        arr = np.ascontiguousarray(arr[::-1])[::-1]
+    elif rep == "readonly":
+        arr.setflags(write=False)
+    return arr
+
+
+def concretise_tab(tab, unit, xrep="f8", yrep="f8"):
+    """spec table (rational pairs) -> exact rational table + the two columns as handed to the integrator"""
+    ex, ey, off = unit
     ft = [((Fraction(p["x"][0], p["x"][1]) + off) * Fraction(2) ** ex, Fraction(p["y"][0], p["y"][1]) * Fraction(2) ** ey)
           for p in tab]
-    return ft, np.array([float(x) for x, _ in ft]), np.array([float(y) for _, y in ft]), (ex, ey, off)
+    xa = as_rep([x for x, _ in ft], xrep)
+    if yrep in SIGNED_OF and any(y < 0 for _, y in ft):
+        yrep = SIGNED_OF[yrep]                    # negative values: the signed type of the same width
+    ya = as_rep([y for _, y in ft], yrep)
+    if xa is None or ya is None:
+        raise MachineryError("table %s is not representable as x=%s y=%s in unit %s" % (tab, xrep, yrep, unit))
+    return ft, xa, ya, yrep
+
+
+def frozen(v):
+    return v.tobytes() if isinstance(v, np.ndarray) else repr(v)
 
 
 _RULE_CACHE = {}
@@ -299,14 +403,17 @@ def fresh_rule(n, A, Bf):
 
 
 def obs_data(args):
-    rid, tabcase, n, variant, entry = args
+    rid, tabcase, n, variant, entry = args[:5]
+    xrep, yrep = args[5] if len(args) > 5 else ("f8", "f8")
     import esutil.integrate as ei
-    ft, xa, ya, (ex, ey, off) = concretise_tab(tabcase["tab"], variant)
+    ex, ey, off = unit = data_unit(xrep, yrep, variant)
+    ft, xa, ya, yrep = concretise_tab(tabcase["tab"], unit, xrep, yrep)
     rec = {"k": "data", "id": rid, "n": n, "err": "none", "finite": True, "val": False, "tab": tabcase["tab"],
-           "exact": list(rq.OFF), "variant": variant, "entry": entry, "frame_ok": True}
-    bx, by = xa.tobytes(), ya.tobytes()
+           "exact": list(rq.OFF), "variant": variant, "entry": entry, "frame_ok": True, "xrep": xrep, "yrep": yrep, "unit": list(unit)}
+    bx, by = frozen(xa), frozen(ya)
     try:
-        with np.errstate(all="ignore"):
+        with np.errstate(all="ignore"), warnings.catch_warnings():
+            warnings.simplefilter("ignore")
             if entry == "qgauss":
                 r = float(ei.qgauss(xa, ya, n))
             elif entry == "QGauss().integrate(npts=n)":
@@ -316,12 +423,12 @@ def obs_data(args):
     except Exception as e:  # noqa
         rec["err"] = type(e).__name__
         return rec
-    rec["frame_ok"] = (xa.tobytes() == bx and ya.tobytes() == by)
+    rec["frame_ok"] = (frozen(xa) == bx and frozen(ya) == by)
     rec["result"] = r
     if not math.isfinite(r):
         rec["finite"] = False
         return rec
-    A, Bf = float(xa.min()), float(xa.max())
+    A, Bf = float(min(x for x, _ in ft)), float(max(x for x, _ in ft))
     xs, ws = fresh_rule(n, A, Bf)
     if not (rq.finite(xs) and rq.finite(ws)) or len(xs) != n:
         rec["val"] = False
@@ -432,13 +539,347 @@ def obs_seq(args):
 
 def check_fresh_distinct():
     """the slots must separate the point counts, or `same` would be ambiguous"""
+    allp = sorted(set(NPTS) | set(NEST_NPTS))
     for kind in ("func", "data"):
         for slot in range(4):
-            rs = [fresh_call(kind, slot, e)[1] for e in NPTS]
+            rs = [fresh_call(kind, slot, e)[1] for e in allp]
             for i in range(len(rs)):
                 for j in range(i + 1, len(rs)):
                     if not (abs(rs[i] - rs[j]) > 1e-6 * max(abs(rs[i]), abs(rs[j]))):
-                        raise MachineryError("call slot %s/%d does not separate npts %s and %s" % (kind, slot, NPTS[i], NPTS[j]))
+                        raise MachineryError("call slot %s/%d does not separate npts %s and %s" % (kind, slot, allp[i], allp[j]))
+    for slot in range(len(NEST_IV)):                      # and prime the rules the nest replays compare with (before forking)
+        for e in NEST_NPTS:
+            nest_rule(e, slot)
+
+
+# ---- re-entrant and aliasing histories on one object --------------------------------------------
+NEST_IV = [(-1.0, 1.0), (0.0, 2.0), (-3.0, -1.0), (0.25, 4.0), (-1.0, 1.5)]      # [-1,1]: the affine map is the identity
+GARBAGE = -7.25
+
+
+def nest_rule(e, slot):
+    """(ascending abscissae, weights) a fresh QGauss(e) uses on NEST_IV[slot]; ([], []) if that fails"""
+    try:
+        xs, ws = fresh_rule(e, *NEST_IV[slot])
+        if len(xs) == e and rq.finite(xs) and rq.finite(ws):
+            return xs, ws
+    except Exception:  # noqa
+        pass
+    return [], []
+
+
+def nest_nodes(x, slot):
+    """the point counts e for which the array x holds the nodes of Rule(e) mapped onto NEST_IV[slot]"""
+    try:
+        xv = sorted(float(v) for v in np.asarray(x, dtype="f8").ravel())
+    except Exception:  # noqa
+        return []
+    lo, hi = NEST_IV[slot]
+    tol = 4 * rq.ulp(max(abs(lo), abs(hi)))
+    out = []
+    for e in NEST_NPTS:
+        xs, _ = nest_rule(e, slot)
+        if len(xs) == len(xv) == e and rq.finite(xv) and all(abs(Fraction(p) - Fraction(q)) <= tol for p, q in zip(xv, xs)):
+            out.append(e)
+    return out
+
+
+def nest_wsum(x0, y, r, slot):
+    """the point counts e for which r = sum_i W(e)_i y_i, W(e) = weights of a fresh QGauss(e) on the slot's interval,
+    y_i the value the integrand returned for the i-th abscissa it was handed"""
+    out = []
+    try:
+        yv = [float(v) for v in np.broadcast_to(np.asarray(y, dtype="f8"), np.shape(x0)).ravel()]
+    except Exception:  # noqa
+        return out
+    if not (rq.finite(yv) and math.isfinite(r) and rq.finite(x0)):
+        return out
+    order = sorted(range(len(x0)), key=lambda i: float(x0[i]))
+    for e in NEST_NPTS:
+        _, ws = nest_rule(e, slot)
+        if len(ws) != len(yv) or not ws:
+            continue
+        exp = sum(Fraction(w) * Fraction(yv[i]) for w, i in zip(ws, order))
+        mag = sum(abs(Fraction(w) * Fraction(yv[i])) for w, i in zip(ws, order))
+        if abs(Fraction(r) - exp) <= 4 * (e + 4) * Fraction(1, 2 ** 52) * mag:
+            out.append(e)
+    return out
+
+
+class IntegrandCalledTwice(Exception):
+    pass
+
+
+def obs_nest(args):
+    """replay one history (QuadratureMC NEST) on ONE real QGauss object.  Script events: enter(kind,arg) / mutate / exit,
+    properly nested; a "func" call's integrand performs the script between its enter and its exit."""
+    rid, c = args
+    import esutil.integrate as ei
+    script = c["ev"]
+    match, stack = {}, []
+    for i, ev in enumerate(script):
+        if ev["op"] == "enter":
+            stack.append(i)
+        elif ev["op"] == "exit":
+            match[stack.pop()] = i
+    if stack:
+        raise MachineryError("history not properly nested: %s" % script)
+    q = ei.QGauss(c["ctor"] if c["ctor"] else None)
+    tr, held, slots, st = [], {}, {}, {"pos": 0, "ncall": 0}
+
+    def g(xa):
+        return 1.0 / (1.0 + xa * xa) + np.abs(xa - 0.3) + 0.5
+
+    def do_call(depth):
+        i0 = st["pos"]
+        ev = script[i0]
+        st["pos"] += 1
+        st["ncall"] += 1
+        k = st["ncall"]
+        kind, arg = ev["kind"], ev["arg"]
+        slots[k] = slot = (k + rid) % len(NEST_IV)
+        tr.append({"op": "enter", "kind": kind, "arg": arg, "id": k, "slot": slot})
+        ex = {"op": "exit", "id": k, "err": "none", "ok": []}
+        r = float("nan")
+        info = {}
+        try:
+            with np.errstate(all="ignore"), warnings.catch_warnings():
+                warnings.simplefilter("ignore")
+                if kind == "data":
+                    x, y = SEQ_TAB[slot % 4]
+                    r = float(q.integrate(x.copy(), y.copy(), npts=arg if arg else None))
+                    ex["ok"] = [e for e in NEST_NPTS if close(fresh_call("data", slot % 4, e)[1], r)]
+                else:
+                    def integrand(x):
+                        if info:
+                            raise IntegrandCalledTwice()
+                        info["x0"] = x0 = np.array(x, dtype="f8", copy=True).ravel()
+                        held[k] = x                                   # the integrand keeps the array it was handed
+                        tr.append({"op": "eval", "id": k, "nabsc": int(x0.size), "nodes": nest_nodes(x0, slot)})
+                        mutated = False
+                        if st["pos"] < match[i0] and script[st["pos"]]["op"] == "mutate":
+                            st["pos"] += 1
+                            if isinstance(x, np.ndarray) and x.flags.writeable:
+                                x[...] = GARBAGE                      # ... and overwrites it (if it may)
+                                mutated = True
+                                tr.append({"op": "mutate", "id": k})
+                        inner = 0.0
+                        while st["pos"] < match[i0] and script[st["pos"]]["op"] == "enter":
+                            inner += do_call(depth + 1)               # re-entrant use of the same object
+                        x1 = np.array(x, dtype="f8", copy=True).ravel()
+                        tr.append({"op": "read", "id": k, "nodes": nest_nodes(x1, slot)})
+                        info["y"] = y = g(x0 if mutated else x1) + 0.125 * inner
+                        return y
+                    r = float(q.integrate(list(NEST_IV[slot]), integrand, npts=arg if arg else None))
+                    if "y" in info:
+                        ex["ok"] = nest_wsum(info["x0"], info["y"], r, slot)
+        except MachineryError:
+            raise
+        except Exception as e:  # noqa
+            ex["err"] = type(e).__name__
+        st["pos"] = match[i0] + 1
+        ex["result"] = r if math.isfinite(r) else repr(r)
+        tr.append(ex)
+        if depth == 0:
+            for j in sorted(held):                                    # the caller reads every array kept so far
+                tr.append({"op": "read", "id": j, "nodes": nest_nodes(held[j], slots[j])})
+        return r
+
+    while st["pos"] < len(script):
+        if script[st["pos"]]["op"] != "enter":
+            raise MachineryError("history does not start a call at %d: %s" % (st["pos"], script))
+        do_call(0)
+    return {"k": "nest", "id": rid, "ctor": c["ctor"], "ev": tr, "script": script}
+
+
+def has_nested(ev):
+    """a call begins while another one is in progress"""
+    depth = 0
+    for e in ev:
+        if e["op"] == "enter":
+            if depth > 0:
+                return True
+            depth += 1
+        elif e["op"] == "exit":
+            depth -= 1
+    return False
+
+
+NEST_FIELDS = {"enter": ("op", "kind", "arg"), "eval": ("op", "id", "nabsc", "nodes"), "mutate": ("op", "id"), "read": ("op", "id", "nodes"),
+               "exit": ("op", "id", "err", "ok")}
+
+
+def nest_class(r, step):
+    """structural class of the failing step of a history (for the signature only)"""
+    ev = r["ev"]
+    e = ev[step - 1]
+    k = e.get("id")
+    depth, cur, eff, inner_of, mut = [], r["ctor"], {}, {}, False
+    for t in ev[:step]:
+        if t["op"] == "enter":
+            cur = t["arg"] or cur
+            eff[t["id"]] = cur
+            for o in depth:
+                inner_of.setdefault(o, []).append(t["id"])
+            depth.append(t["id"])
+        elif t["op"] == "exit":
+            depth.remove(t["id"])
+        elif t["op"] == "mutate":
+            mut = True
+    if k is None:
+        return "enter"
+    inner = inner_of.get(k, [])
+    nested = bool(inner) or any(k in v for v in inner_of.values())
+    if not nested:
+        cls = "sequential"
+    elif inner:
+        cls = "nested,inner npts " + ("differs" if any(eff[i] != eff[k] for i in inner) else "same")
+    else:
+        cls = "nested,inner call"
+    return cls + (",after a mutating integrand" if mut and e["op"] == "eval" else "")
+
+
+# ---- what an integrand returns ------------------------------------------------------------------
+RET_IV = [((0, 2), (1, 4)), ((-1, 1), (-1, 1)), ((-3, 1), (0, 1)), ((2, 5), (-2, 2)), ((1, 0), (0, 3))]     # integer end points (x, y)
+RET_CONST = [Fraction(5, 2), Fraction(-3, 4), Fraction(2), Fraction(7), Fraction(-3)]
+RET_INT_REPS = ("pyint", "np.int16", "i8", "i2")
+RET_ENTRIES = ["QGauss(n).integrate", "QGauss(n).integrate_func", "qgauss", "QGauss().integrate(npts=n)"]
+_GRIDW = {}
+
+
+def grid_weights(dim, nx, ny, ivx, ivy, entry):
+    """weights per grid cell, in the layout the integrand is handed (row-major (ny, nx); (1, n) for dim 1), extracted from a
+    fresh object with full-shape indicator integrands.  None if the abscissa grid is not a (ny, nx) grid of distinct points."""
+    key = (dim, nx, ny, ivx, ivy, entry)
+    if key in _GRIDW:
+        return _GRIDW[key]
+    import esutil.integrate as ei
+    out = None
+    with np.errstate(all="ignore"):
+        if dim == 1:
+            call = entry_call(entry, nx)
+            seen = []
+
+            def f0(x):
+                seen.append(np.array(x, dtype="f8", copy=True))
+                return np.zeros(np.shape(x))
+            call(list(ivx), f0)
+            if len(seen) == 1 and seen[0].shape == (nx,) and len(set(seen[0].tolist())) == nx:
+                W = [float(call(list(ivx), lambda x, xj=xj: np.where(np.asarray(x) == xj, 1.0, 0.0))) for xj in seen[0]]
+                out = (seen[0].reshape(1, nx), None, W)
+        else:
+            q = ei.QGauss2(nx, ny)
+            seen = []
+
+            def g0(xg, yg):
+                seen.append((np.array(xg, dtype="f8", copy=True), np.array(yg, dtype="f8", copy=True)))
+                return np.zeros(np.shape(xg))
+            q.integrate_func(list(ivx), list(ivy), g0)
+            if len(seen) == 1 and seen[0][0].shape == (ny, nx) and seen[0][1].shape == (ny, nx):
+                X, Y = seen[0]
+                pts = list(zip(X.ravel().tolist(), Y.ravel().tolist()))
+                if len(set(pts)) == nx * ny:
+                    W = [float(q.integrate_func(list(ivx), list(ivy), lambda xg, yg, px=px, py=py: np.where((xg == px) & (yg == py), 1.0, 0.0)))
+                         for px, py in pts]
+                    out = (X, Y, W)
+    if out is not None and not rq.finite(out[2]):
+        out = None
+    _GRIDW[key] = out
+    return out
+
+
+def ret_object(vals, sh, rep):
+    """the integrand's return value: rationals `vals` (row-major) in shape `sh` and representation `rep`"""
+    if not sh:
+        v = vals[0]
+        if rep == "pyfloat":
+            return float(v)
+        if rep == "pyint":
+            return int(v)
+        if rep in ("np.float64", "np.float32", "np.int16"):
+            return getattr(np, rep[3:])(int(v) if rep == "np.int16" else float(v))
+        return np.array(float(v), dtype="f4" if rep == "0d-f4" else "f8")
+    if rep in ("i8", "i2"):
+        arr = np.array([int(v) for v in vals], dtype=rep).reshape(sh)
+    else:
+        arr = np.array([float(v) for v in vals], dtype={"f4": "<f4", ">f8": ">f8"}.get(rep, "<f8")).reshape(sh)
+    if rep == "list":
+        return arr.tolist()
+    if rep == "tuple":
+        return tuple(tuple(row) for row in arr.tolist()) if arr.ndim == 2 else tuple(arr.tolist())
+    if rep == "F":
+        return np.asfortranarray(arr)
+    if rep == "strided":
+        big = np.full(tuple(2 * d for d in arr.shape), -99.0)
+        big[tuple(slice(1, None, 2) for _ in arr.shape)] = arr
+        return big[tuple(slice(1, None, 2) for _ in arr.shape)]
+    if rep == "readonly":
+        arr.setflags(write=False)
+    return arr
+
+
+def obs_ret(args):
+    rid, c, seed = args
+    import esutil.integrate as ei
+    dim, nx, ny, sh, rep = c["dim"], c["nx"], c["ny"], list(c["sh"]), c["rep"]
+    rng = random.Random("%s|ret|%d" % (seed, rid))
+    ivx, ivy = RET_IV[(rid + nx) % len(RET_IV)]
+    if dim == 1:
+        ivy = (0, 1)
+    entry = RET_ENTRIES[rid % len(RET_ENTRIES)] if dim == 1 else "QGauss2.integrate_func"
+    isint = rep in RET_INT_REPS
+    if c["vals"] == "const":
+        cands = [v for v in RET_CONST if v.denominator == 1] if isint else RET_CONST
+        cv = cands[rid % len(cands)]
+        vals = [cv] * c["count"]
+    else:
+        cv = Fraction(0)
+        vals = [Fraction(rng.randint(-8, 8), 1 if isint else 4) for _ in range(c["count"])]
+        if len(set(vals)) == 1:
+            vals[0] += 1
+    rec = {"k": "ret", "id": rid, "dim": dim, "nx": nx, "ny": ny, "sh": sh, "rep": rep, "err": "none", "finite": True, "val": False,
+           "isconst": c["vals"] == "const", "cn": cv.numerator, "cd": cv.denominator, "ax": ivx[0], "bx": ivx[1], "ay": ivy[0], "by": ivy[1],
+           "cexact": list(rq.OFF), "entry": entry, "vals": [[v.numerator, v.denominator] for v in vals], "case": c}
+    gw = grid_weights(dim, nx, ny, tuple(float(v) for v in ivx), tuple(float(v) for v in ivy), entry)
+    obj = ret_object(vals, sh, rep)
+    try:
+        with np.errstate(all="ignore"), warnings.catch_warnings():
+            warnings.simplefilter("ignore")
+            if dim == 1:
+                res = entry_call(entry, nx)([float(ivx[0]), float(ivx[1])], lambda x: obj)
+            else:
+                res = ei.QGauss2(nx, ny).integrate_func([float(ivx[0]), float(ivx[1])], [float(ivy[0]), float(ivy[1])], lambda x, y: obj)
+    except Exception as e:  # noqa
+        rec["err"] = type(e).__name__
+        return rec
+    try:
+        ra = np.asarray(res, dtype="f8")
+    except Exception:  # noqa
+        ra = np.array([np.nan, np.nan])
+    if ra.size != 1:
+        rec["shape_of_result"] = list(ra.shape)
+        return rec                                   # not a number: val stays False
+    r = float(ra.ravel()[0])
+    rec["result"] = r if math.isfinite(r) else repr(r)
+    if not math.isfinite(r):
+        rec["finite"] = False
+        return rec
+    if gw is None:
+        return rec
+    W = gw[2]
+    if len(W) != len(c["map"]):
+        return rec
+    u = Fraction(1, 2 ** 52)
+    exp = sum(Fraction(w) * vals[m - 1] for w, m in zip(W, c["map"]))          # the cell map is the specification's (RetMap)
+    mag = sum(abs(Fraction(w) * vals[m - 1]) for w, m in zip(W, c["map"]))
+    rec["val"] = abs(Fraction(r) - exp) <= 4 * (len(W) + 4) * u * mag
+    if rec["isconst"]:
+        area = Fraction((ivx[1] - ivx[0]) * (ivy[1] - ivy[0]))
+        ex = cv * area
+        tol = abs(ex) * Fraction(2001 if dim == 2 else 1000, 1000) / _T["told"]
+        if Fraction(r) == ex or abs(Fraction(r) - ex) < tol:
+            rec["cexact"] = [ex.numerator, ex.denominator]
+    return rec
 
 
 # ---- QGauss2 ----------------------------------------------------------------------------------
@@ -446,16 +887,23 @@ TENSOR_IV = [((-1, 1, 0), (0, 2, 0)), ((0, 1, 0), (-3, 1, 0)), ((2, 5, -3), (-1,
 
 
 def obs_tensor(args):
-    rid, nx, ny, variant, seed = args
+    rid, nx, ny, variant, seed = args[:5]
+    typed = args[5] if len(args) > 5 else None          # (a, b, sc, etype, cont): both ranges in that representation
     import esutil.integrate as ei
     (ax, bx, sx), (ay, by, sy) = TENSOR_IV[variant % len(TENSOR_IV)]
+    etype = None
+    if typed:
+        ax, bx, sx, etype, cont = typed
+        ay, by, sy = typed[:3]
     Ax, Bx = iv(ax, bx, sx)
     Ay, By = iv(ay, by, sy)
+    xrng, yrng = (make_range(ax, bx, sx, etype, cont), make_range(ay, by, sy, etype, cont)) if typed else ([Ax, Bx], [Ay, By])
     rec = {"k": "tensor", "id": rid, "nx": nx, "ny": ny, "err": "none", "finite": True, "npts": 0, "ndx": 0, "ndy": 0,
-           "full": False, "rank1": False, "lin": [], "variant": variant}
+           "full": False, "rank1": False, "lin": [], "variant": variant, "typed": list(typed) if typed else None}
     rules = []
     try:
-        with np.errstate(all="ignore"):
+        with np.errstate(all="ignore"), warnings.catch_warnings():
+            warnings.simplefilter("ignore")
             q = ei.QGauss2(nx, ny)
             pts = []
 
@@ -464,7 +912,7 @@ def obs_tensor(args):
                 xa, ya = np.broadcast_arrays(xa, ya)
                 pts.extend(zip((float(v) for v in xa.ravel()), (float(v) for v in ya.ravel())))
                 return np.zeros(xa.shape)
-            r0 = float(q.integrate_func([Ax, Bx], [Ay, By], f0))
+            r0 = float(q.integrate_func(xrng, yrng, f0))
             X = sorted(set(p[0] for p in pts))
             Y = sorted(set(p[1] for p in pts))
             rec.update(npts=len(pts), ndx=len(X), ndy=len(Y),
@@ -480,7 +928,7 @@ def obs_tensor(args):
                     def fij(xg, yg, x=x, y=y):
                         xa, ya = np.broadcast_arrays(np.asarray(xg, dtype="f8"), np.asarray(yg, dtype="f8"))
                         return np.where((xa == x) & (ya == y), 1.0, 0.0)
-                    W[(x, y)] = float(q.integrate_func([Ax, Bx], [Ay, By], fij))
+                    W[(x, y)] = float(q.integrate_func(xrng, yrng, fij))
             if not rq.finite(W.values()):
                 rec["finite"] = False
                 return rec, rules
@@ -498,7 +946,7 @@ def obs_tensor(args):
                 def fz(xg, yg, zmap=zmap):
                     xa, ya = np.broadcast_arrays(np.asarray(xg, dtype="f8"), np.asarray(yg, dtype="f8"))
                     return np.array([zmap[(float(p), float(s))] for p, s in zip(xa.ravel(), ya.ravel())]).reshape(xa.shape)
-                r = float(q.integrate_func([Ax, Bx], [Ay, By], fz))
+                r = float(q.integrate_func(xrng, yrng, fz))
                 exp = sum(Fraction(zmap[k]) * FW[k] for k in W)
                 mag = sum(abs(Fraction(zmap[k]) * FW[k]) for k in W)
                 rec["lin"].append(math.isfinite(r) and abs(Fraction(r) - exp) <= (nx * ny + 4) * u * mag)
@@ -506,8 +954,17 @@ def obs_tensor(args):
             # hence twice the tolerance (+ second order)
             wx = [float(R[x] / (Fraction(By) - Fraction(Ay))) for x in X]
             wy = [float(C[y] / (Fraction(Bx) - Fraction(Ax))) for y in Y]
+            if ax > bx:
+                X, wx = X[::-1], wx[::-1]
+            if ay > by:
+                Y, wy = Y[::-1], wy[::-1]
             rules.append(rule_record("QGauss2.x", ax, bx, sx, nx, X, wx, tolmul=2.001, seed=seed))
             rules.append(rule_record("QGauss2.y", ay, by, sy, ny, Y, wy, tolmul=2.001, seed=seed))
+            if etype:
+                for rr in rules:
+                    rr["etype"], rr["cont"] = etype, cont
+    except MachineryError:
+        raise
     except Exception as e:  # noqa
         rec["err"] = type(e).__name__
     return rec, rules
@@ -529,11 +986,25 @@ def signature(r, clause):
             cls += ";endpoints=" + r["etype"]
         return "%s|%s|%s" % (entry, clause, cls)
     if k == "data":
-        return "integrators|%s|%s" % ("nonfinite" if clause == "nonfinite" else "data:" + clause, nclass(r["n"]))
+        cls = nclass(r["n"])
+        for ax in ("x", "y"):                          # the first column that is not a plain float64 array names the class
+            rc = REP_CLASS[r.get(ax + "rep", "f8")]
+            if rc != "plain":
+                cls += ";%s=%s" % (ax, rc)
+                break
+        return "integrators|%s|%s" % ("nonfinite" if clause == "nonfinite" else "data:" + clause, cls)
     if k == "tensor":
+        et = ";endpoints=" + r["typed"][3] if r.get("typed") else ""
         if clause == "nonfinite":
-            return "integrators|nonfinite|n=1" if 1 in (r["nx"], r["ny"]) else "QGauss2|nonfinite|n>1"
-        return "QGauss2|%s|%s" % (clause, "nx!=ny" if r["nx"] != r["ny"] else "nx=ny")
+            return ("integrators|nonfinite|n=1" if 1 in (r["nx"], r["ny"]) else "QGauss2|nonfinite|n>1") + et
+        return "QGauss2|%s|%s" % (clause, ("nx!=ny" if r["nx"] != r["ny"] else "nx=ny") + et)
+    if k == "ret":
+        shape = "scalar" if not r["sh"] else ("full" if r["case"]["full"] else "broadcast")
+        return "%s|returned:%s|%s%s" % ("QGauss2" if r["dim"] == 2 else "integrators", clause, shape,
+                                        (";nx!=ny" if r["nx"] != r["ny"] else ";nx=ny") if r["dim"] == 2 else "")
+    if k == "nest":
+        cl, _, step = clause.partition("@")
+        return "QGauss.integrate(re-entrant)|%s|%s" % (cl, nest_class(r, int(step)) if step else "?")
     if k == "seq":
         cl, _, step = clause.partition("@")
         e = r["ev"][int(step) - 1] if step else {"kind": "?", "arg": 0}
@@ -544,15 +1015,21 @@ def signature(r, clause):
 def replay_case(r):
     k = r["k"]
     if k == "rule":
-        return {"kind": "rule", "src": r["src"], "a": r["a"], "b": r["b"], "sc": r["sc"], "n": r["n"], "etype": r.get("etype"),
+        return {"kind": "rule", "src": r["src"], "a": r["a"], "b": r["b"], "sc": r["sc"], "n": r["n"], "etype": r.get("etype"), "cont": r.get("cont"),
                 "observed": {f: r[f] for f in ("err", "finite", "nx", "nw", "asc", "wsg", "xsym", "wsym") if f in r},
                 "off_degrees": {f: [i for i, v in enumerate(r[f]) if v == rq.OFF] for f in ("mom", "nmom", "cheb")}}
     if k == "data":
         return {"kind": "data", "tab": r["tab"], "trapz": r.get("trapz"), "n": r["n"], "variant": r["variant"], "entry": r["entry"],
+                "xrep": r.get("xrep", "f8"), "yrep": r.get("yrep_asked", r.get("yrep", "f8")), "unit": r.get("unit"),
                 "observed": {f: r.get(f) for f in ("err", "finite", "val", "exact", "result")}}
     if k == "tensor":
-        return {"kind": "tensor", "nx": r["nx"], "ny": r["ny"], "variant": r["variant"],
+        return {"kind": "tensor", "nx": r["nx"], "ny": r["ny"], "variant": r["variant"], "typed": r.get("typed"),
                 "observed": {f: r.get(f) for f in ("err", "finite", "npts", "full", "rank1", "lin")}}
+    if k == "ret":
+        return {"kind": "ret", "rid": r["id0"], "case": r["case"], "entry": r["entry"], "interval": [r["ax"], r["bx"], r["ay"], r["by"]],
+                "values": r["vals"], "observed": {f: r.get(f) for f in ("err", "finite", "val", "cexact", "result", "shape_of_result")}}
+    if k == "nest":
+        return {"kind": "nest", "rid": r["id0"], "ctor": r["ctor"], "script": r["script"], "observed": r["ev"]}
     return {"kind": "seq", "rid": r["id"], "ctor": r["ctor"], "calls": [{"kind": e["kind"], "arg": e["arg"]} for e in r["ev"]],
             "observed": r["ev"]}
 
@@ -560,12 +1037,18 @@ def replay_case(r):
 TRACE_FIELDS = {
     "rule": ("k", "id", "src", "a", "b", "n", "err", "finite", "nx", "nw", "asc", "lo", "hi", "wsg", "xsym", "wsym", "mom",
              "nmom", "cheb", "polys", "lin"),
-    "data": ("k", "id", "n", "err", "finite", "val", "tab", "exact"),
+    "data": ("k", "id", "n", "err", "finite", "val", "tab", "exact", "xrep", "yrep"),
     "tensor": ("k", "id", "nx", "ny", "err", "finite", "npts", "ndx", "ndy", "full", "rank1", "lin"),
+    "ret": ("k", "id", "dim", "nx", "ny", "sh", "rep", "err", "finite", "val", "isconst", "cn", "cd", "ax", "bx", "ay", "by", "cexact"),
 }
 
 
 def trace_view(r):
+    if r["k"] == "nest":
+        return {"k": "nest", "id": r["id"], "ctor": r["ctor"], "ev": [{f: e[f] for f in NEST_FIELDS[e["op"]]} for e in r["ev"]]}
+    if r["k"] == "data":
+        r.setdefault("xrep", "f8")
+        r.setdefault("yrep", "f8")
     if r["k"] == "seq":
         return {"k": "seq", "id": r["id"], "ctor": r["ctor"],
                 "ev": [{f: e[f] for f in ("kind", "arg", "err", "nabsc", "same")} for e in r["ev"]]}
@@ -574,14 +1057,18 @@ def trace_view(r):
 
 def judge(ctx, recs, what, kcapn=None, count=True):
     for i, r in enumerate(recs, 1):
+        if r["k"] in ("nest", "ret"):
+            r.setdefault("id0", r["id"])
         r["id"] = i
     consts = {"KCapX": _T["kcapx"], "KCapN": kcapn or _T["kcapn"], "NPoly": NPOLY}
     rejects = tracecheck.validate(ctx, "QuadratureTrace.tla", [trace_view(r) for r in recs], what=what, constants=consts,
                                   shard_size=250, max_shards=8)
     for r in recs:
         if count:
-            ctx.count(replay_case(r) if r["k"] != "rule" else (r["src"], r["a"], r["b"], r["sc"], r["n"]))
+            ctx.count(replay_case(r) if r["k"] != "rule" else (r["src"], r["a"], r["b"], r["sc"], r["n"], r.get("etype"), r.get("cont")))
         for cl in rejects.get(r["id"], []):
+            if cl.startswith("malformed_trace"):
+                raise MachineryError("history recorded by the adapter is not well formed: %s" % r)
             ctx.violation(signature(r, cl), "%s: result not allowed by Quadrature.tla, clause %s" %
                           (r.get("src") or r.get("entry") or r["k"], cl), replay_case(r))
         if r.get("frame_ok") is False:
@@ -676,13 +1163,29 @@ def run(ctx):
         "seq": lambda: ctx.tlc("QuadratureMC.tla", what="export every call sequence (SEQ)",
                                cfg_text=cfg(constants=mc_constants(B, DoExport=True), init="InitC", next_="NextC", constraints=["Export"]),
                                workers=1, coverage=False, timeout=1800),
+        "nest": lambda: ctx.tlc("QuadratureMC.tla", what="re-entrant histories: fresh array + rule taken at entry refines the nest machine; export (NEST)",
+                                cfg_text=cfg(constants=mc_constants(B, DoExport=True), init="InitN", next_="NextN", invariants=["NestRefines"],
+                                             constraints=["Export"]),
+                                workers=1, require=["NConstruct", "NEnter", "NMutate", "NExit"], timeout=1800),
+        "nest_reread": lambda: ctx.tlc("QuadratureMC.tla", what="lead/self-test: weights re-read from the object after the integrand returned violate NestRefines",
+                                       cfg_text=cfg(constants=mc_constants(B, NestVariant="reread", MaxNestCalls=2, MaxDepth=2), init="InitN", next_="NextN",
+                                                    invariants=["NestRefines"]),
+                                       workers=1, allow_violation=True, coverage=False),
+        "nest_scratch": lambda: ctx.tlc("QuadratureMC.tla", what="self-test: one per-object work array for the mapped abscissae violates NestRefines",
+                                        cfg_text=cfg(constants=mc_constants(B, NestVariant="scratch", MaxNestCalls=2, MaxDepth=2), init="InitN", next_="NextN",
+                                                     invariants=["NestRefines"]),
+                                        workers=1, allow_violation=True, coverage=False),
+        "ret": lambda: ctx.tlc("QuadratureMC.tla", what="export returned shapes x representations with their cell maps (RET) + RetLaws; table and end-point representations (DREP, ETYPE)",
+                               cfg_text=cfg(constants=mc_constants(B, DoExport=True), init="InitR", next_="NextRP", invariants=["RetLaws"],
+                                            constraints=["Export"]),
+                               workers=1, require=["ChooseGridR", "ChooseRet", "ChooseDRep", "ChooseEType"], timeout=1800),
         "tab": lambda: ctx.tlc("QuadratureMC.tla", what="export every small table (TAB) + TableLaws",
                                cfg_text=cfg(constants=mc_constants(B, DoExport=True), init="InitD", next_="NextD", invariants=["TableLaws"],
                                             constraints=["Export"]),
                                workers=1, require=["ChooseGrid", "ChooseVals"], timeout=1800),
     }
     from concurrent.futures import ThreadPoolExecutor
-    with ThreadPoolExecutor(4) as ex:
+    with ThreadPoolExecutor(6) as ex:
         futs = {k: ex.submit(f) for k, f in jobs.items()}
         res = {k: f.result() for k, f in futs.items()}
     if "MechRefines" not in res["stale"].violated:
@@ -692,9 +1195,18 @@ def run(ctx):
         raise MachineryError("self-test failed: the (nx,ny)-shaped weight grid does not violate TensorRefines")
     if len(shapes) != B["NMax"] ** 2:
         raise MachineryError("tensor shapes not exported")
+    for v in ("nest_reread", "nest_scratch"):
+        if "NestRefines" not in res[v].violated:
+            raise MachineryError("self-test failed: the deviating integrate_func variant %s does not violate NestRefines" % v)
     nkv = res["kv"]
     seqs = res["seq"].records.get("SEQ", [])
     tabs = res["tab"].records.get("TAB", [])
+    nests = res["nest"].records.get("NEST", [])
+    rets = res["ret"].records.get("RET", [])
+    dreps = sorted(((c["xrep"], c["yrep"]) for c in res["ret"].records.get("DREP", [])))
+    etypes = sorted(((c["etype"], c["entry"], c["cont"]) for c in res["ret"].records.get("ETYPE", [])))
+    if len(dreps) < 100 or len(etypes) < 50:
+        raise MachineryError("representations not exported: %d table, %d end-point cases" % (len(dreps), len(etypes)))
     import esutil.integrate as ei  # noqa  (imported before forking)
     check_fresh_distinct()
     allrecs = []
@@ -736,6 +1248,26 @@ def run(ctx):
         recs = pmap(obs_integrator, [c + (ctx.seed,) for c in ic], chunk=8)
         judge(ctx, recs, "judge rules extracted from the integrators (QuadratureTrace)")
         allrecs += recs
+        # 2a. the range [xmin, xmax] in every representation QuadratureMC enumerates (ETYPE): end points of other number types,
+        #     in a list / tuple / array of that element type, through every entry point
+        tic, ttc = [], []
+        for i, (et, entry, cont) in enumerate(etypes):
+            ivs = [t for t in TYPED_INTERVALS if t[3] == et]
+            for j in range(1 if ctx.quick else len(ivs)):
+                a, b, sc, _ = ivs[(i + j) % len(ivs)]
+                n = (2, 5, 3, 12)[(i + j) % 4]
+                if entry == "gauleg":
+                    continue                                   # part 1a
+                if entry == "QGauss2.integrate_func":
+                    ttc.append((len(ttc) + 1, 2 + i % 2, 3 - i % 2, 0, ctx.seed, (a, b, sc, et, cont)))
+                else:
+                    tic.append((entry, a, b, sc, n, ctx.seed, et, cont))
+        trecs = pmap(obs_integrator, tic, chunk=8)
+        tout = pmap(obs_tensor, ttc)
+        trecs += [o[0] for o in tout] + [r for o in tout for r in o[1]]
+        judge(ctx, trecs, "judge integrator rules for typed ranges (QuadratureTrace)")
+        allrecs += trecs
+        ctx.note(integrator_typed_range_cases=len(tic) + len(ttc))
         good = [r for r in recs if r["finite"] and r["n"] > 2]
         if good:
             r = good[len(good) // 2]
@@ -753,6 +1285,35 @@ def run(ctx):
                     "observed": [{f: e[f] for f in ("err", "nabsc", "same")} for e in recs[-1]["ev"]]})
         ctx.note(call_sequences=len(seqs))
         # longer seeded sequences with point counts outside the model's set are covered by the model run above
+    # 3a. re-entrant / aliasing histories on one object (spec -> code), judged by stepping the nest machine
+    if part("nest"):
+        if len(nests) < 100:
+            raise MachineryError("re-entrant histories not exported")
+        recs = pmap(obs_nest, list(enumerate(nests, 1)))
+        nn = sum(1 for r in recs if has_nested(r["ev"]))
+        if nn == 0 or not any(e["op"] == "mutate" for r in recs for e in r["ev"]):
+            raise MachineryError("no nested call / no mutating integrand was replayed")
+        judge(ctx, recs, "judge re-entrant histories on one QGauss object (QuadratureTrace)")
+        allrecs += recs
+        deep = max(recs, key=lambda r: len(r["ev"]))
+        ctx.sample({"reentrant_history": {"ctor": deep["ctor"], "script": [[e["op"], e["kind"], e["arg"]] for e in deep["script"]]},
+                    "observed": [{f: e[f] for f in NEST_FIELDS[e["op"]]} for e in deep["ev"]]})
+        ctx.note(reentrant_histories=len(nests), with_nested_calls=nn)
+    # 3b. what the integrand returns: every broadcastable shape x representation (spec -> code)
+    if part("ret"):
+        if len(rets) < 100:
+            raise MachineryError("returned shapes not exported")
+        rets = sorted(rets, key=lambda c: (c["dim"], c["nx"], c["ny"], len(c["sh"]), list(c["sh"]), c["rep"], c["vals"]))
+        recs = pmap(obs_ret, [(i, c, ctx.seed) for i, c in enumerate(rets, 1)], chunk=16)
+        if not any(r["val"] and not r["sh"] for r in recs) and not any(r["err"] != "none" for r in recs):
+            raise MachineryError("no scalar return value was judged")
+        judge(ctx, recs, "judge integrand return shapes and representations (QuadratureTrace)")
+        allrecs += recs
+        sc = [r for r in recs if not r["sh"] and r["dim"] == 2 and r["err"] == "none"]
+        if sc:
+            ctx.sample({"integrand_returns": {"shape": sc[0]["sh"], "rep": sc[0]["rep"], "constant": [sc[0]["cn"], sc[0]["cd"]]}, "QGauss2": [sc[0]["nx"], sc[0]["ny"]],
+                        "ranges": [sc[0]["ax"], sc[0]["bx"], sc[0]["ay"], sc[0]["by"]], "result": sc[0].get("result"), "exact_recorded": sc[0]["cexact"]})
+        ctx.note(returned_shape_cases=len(rets))
     # 4. tabulated data (spec -> code: every small table)
     if part("data"):
         if len(tabs) < 100:
@@ -762,7 +1323,9 @@ def run(ctx):
         dc = []
         for i, t in enumerate(tabs):
             for j, n in enumerate(ns if not ctx.quick else [ns[i % len(ns)], ns[(i + 2) % len(ns)]]):
-                dc.append((len(dc) + 1, t, n, i + j, ents[(i + j) % 3]))
+                dc.append((len(dc) + 1, t, n, i + j, ents[(i + j) % 3], dreps[(len(dc) + 7 * ctx.seed) % len(dreps)]))
+        if len(set(d[5] for d in dc)) < len(dreps):
+            raise MachineryError("not every pair of table representations is used")
         recs = pmap(obs_data, dc)
         for r, d in zip(recs, dc):
             r["trapz"] = d[1]["trapz"]
@@ -771,7 +1334,7 @@ def run(ctx):
         lin = [r for r in recs if r["exact"] != rq.OFF and r["finite"]]
         if lin:
             ctx.sample({"table": lin[0]["tab"], "n": lin[0]["n"], "result": lin[0].get("result"), "exact_integral_recorded": lin[0]["exact"]})
-        ctx.note(tables=len(tabs), data_integrations=len(dc))
+        ctx.note(tables=len(tabs), data_integrations=len(dc), table_representation_pairs=len(dreps))
     # 5. QGauss2
     if part("tensor"):
         extra = [] if ctx.quick else [(7, 12), (12, 7), (30, 30), (1, 9), (16, 16)]
@@ -826,16 +1389,42 @@ def selftest(ctx):
                                            {"kind": "data", "arg": 0, "err": "none", "nabsc": 0, "same": [3]}]}
     seq_bad = {"k": "seq", "ctor": 3, "ev": [{"kind": "func", "arg": 5, "err": "none", "nabsc": 5, "same": [5]},
                                             {"kind": "func", "arg": 2, "err": "none", "nabsc": 5, "same": [5]}]}
-    recs = [good, badw, badx, forged, swapped, seq_ok, seq_bad]
+    # a re-entrant history: call 1 (3 points) starts call 2 (2 points) from its integrand; genuine, then with the outer array
+    # overwritten while call 1 is in progress, then with the outer sum formed with the inner call's weights
+    def nest(read_nodes, ok1):
+        return {"k": "nest", "ctor": 3, "ev": [
+            {"op": "enter", "kind": "func", "arg": 0}, {"op": "eval", "id": 1, "nabsc": 3, "nodes": [3]},
+            {"op": "enter", "kind": "func", "arg": 2}, {"op": "eval", "id": 2, "nabsc": 2, "nodes": [2]}, {"op": "read", "id": 2, "nodes": [2]},
+            {"op": "exit", "id": 2, "err": "none", "ok": [2]}, {"op": "read", "id": 1, "nodes": read_nodes}, {"op": "exit", "id": 1, "err": "none", "ok": ok1},
+            {"op": "read", "id": 1, "nodes": [3]}, {"op": "read", "id": 2, "nodes": [2]},
+            {"op": "enter", "kind": "data", "arg": 0}, {"op": "exit", "id": 3, "err": "none", "ok": [2]}]}
+    nest_ok, nest_over, nest_w = nest([3], [3]), nest([], [3]), nest([3], [2])
+    nest_mut = nest([], [3])
+    nest_mut["ev"].insert(2, {"op": "mutate", "id": 1})          # the integrand overwrote its own array: reading garbage is fine
+    # a constant returned as a scalar by a QGauss2 integrand over [0,2]x[1,4]: 5/2 * 6 = 15
+    ret_ok = {"k": "ret", "dim": 2, "nx": 3, "ny": 3, "sh": [], "rep": "pyfloat", "err": "none", "finite": True, "val": True, "isconst": True,
+              "cn": 5, "cd": 2, "ax": 0, "bx": 2, "ay": 1, "by": 4, "cexact": [15, 1]}
+    ret_bad = dict(ret_ok, cexact=list(rq.OFF), val=False)
+    ret_rej = dict(ret_ok, err="ValueError", sh=[3, 3], rep="f8")          # a full-shape array must be accepted
+    ret_may = dict(ret_ok, err="ValueError")                                # a scalar may be rejected
+    data_list = {"k": "data", "n": 2, "err": "AttributeError", "finite": True, "val": False, "exact": list(rq.OFF), "xrep": "list", "yrep": "f8",
+                 "tab": [{"x": [0, 1], "y": [1, 1]}, {"x": [1, 1], "y": [3, 1]}]}
+    data_arr = dict(data_list, xrep=">f8")
+    recs = [good, badw, badx, forged, swapped, seq_ok, seq_bad, nest_ok, nest_over, nest_w, nest_mut, ret_ok, ret_bad, ret_rej, ret_may,
+            data_list, data_arr]
     for i, r in enumerate(recs, 1):
         r["id"] = i
     rej = tracecheck.validate(ctx, "QuadratureTrace.tla", [trace_view(r) for r in recs], what="self-test: corrupted records rejected",
                               constants={"KCapX": _T["kcapx"], "KCapN": _T["kcapn"], "NPoly": NPOLY}, workers=1)
     ctx.traces = saved
-    want = {2: "w_sum", 3: "poly_exact", 4: "poly_exact", 5: "ascending", 7: "uses_other_npts@2"}
+    want = {2: "w_sum", 3: "poly_exact", 4: "poly_exact", 5: "ascending", 7: "uses_other_npts@2", 9: "abscissae_overwritten_during_call@7",
+            10: "weighted_sum@8", 13: "broadcast_sum", 14: "unexpected_error", 17: "unexpected_error"}
     problems = [(i, rej.get(i)) for i, cl in want.items() if cl not in rej.get(i, [])]
-    if 1 in rej or 6 in rej:
-        problems.append(("genuine record rejected", rej.get(1), rej.get(6)))
+    if "constant_integral" not in rej.get(13, []):
+        problems.append((13, rej.get(13)))
+    for i in (1, 6, 8, 11, 12, 15, 16):
+        if i in rej:
+            problems.append(("genuine record rejected", i, rej.get(i)))
     if problems:
         raise MachineryError("binding self-test failed: %s (rejects %s)" % (problems, rej))
 
@@ -850,27 +1439,39 @@ def replay(ctx, case):
             r = obs_gauleg((case["a"], case["b"], case["sc"], case["n"], ctx.seed, None, case.get("etype")))
         elif case["src"].startswith("QGauss2"):
             print("replay: marginal rules are re-derived from their QGauss2 case; replaying the shape (n,n)")
-            rec, rules = obs_tensor((1, case["n"], case["n"], 0, ctx.seed))
+            typed = (case["a"], case["b"], case["sc"], case["etype"], case.get("cont") or "list") if case.get("etype") else None
+            rec, rules = obs_tensor((1, case["n"], case["n"], 0, ctx.seed) + ((typed,) if typed else ()))
             judge(ctx, [rec] + rules, "replay", count=False)
             return
         else:
-            r = obs_integrator((case["src"], case["a"], case["b"], case["sc"], case["n"], ctx.seed))
+            r = obs_integrator((case["src"], case["a"], case["b"], case["sc"], case["n"], ctx.seed) +
+                               ((case["etype"], case.get("cont") or "list") if case.get("etype") else ()))
         print("replay observed:", {f: r[f] for f in ("err", "finite", "nx", "nw", "asc", "wsg", "xsym", "wsym", "lin")},
               "off:", {f: [i for i, v in enumerate(r[f]) if v == rq.OFF] for f in ("mom", "nmom", "cheb")})
         judge(ctx, [r], "replay", count=False)
     elif k == "data":
-        r = obs_data((1, {"tab": case["tab"], "trapz": case["trapz"]}, case["n"], case["variant"], case["entry"]))
+        r = obs_data((1, {"tab": case["tab"], "trapz": case["trapz"]}, case["n"], case["variant"], case["entry"],
+                      (case.get("xrep", "f8"), case.get("yrep", "f8"))))
         r["trapz"] = case["trapz"]
         print("replay observed:", {f: r.get(f) for f in ("err", "finite", "val", "exact", "result")})
         judge(ctx, [r], "replay", count=False)
     elif k == "tensor":
-        rec, rules = obs_tensor((1, case["nx"], case["ny"], case["variant"], ctx.seed))
+        rec, rules = obs_tensor((1, case["nx"], case["ny"], case["variant"], ctx.seed) + ((tuple(case["typed"]),) if case.get("typed") else ()))
         print("replay observed:", {f: rec.get(f) for f in ("err", "finite", "npts", "full", "rank1", "lin")})
         judge(ctx, [rec] + rules, "replay", count=False)
     elif k == "seq":
         check_fresh_distinct()
         r = obs_seq((case["rid"], {"ctor": case["ctor"], "calls": case["calls"]}))
         print("replay observed:", r["ev"])
+        judge(ctx, [r], "replay", count=False)
+    elif k == "nest":
+        check_fresh_distinct()
+        r = obs_nest((case["rid"], {"ctor": case["ctor"], "ev": case["script"]}))
+        print("replay observed:", [{f: e[f] for f in NEST_FIELDS[e["op"]]} for e in r["ev"]])
+        judge(ctx, [r], "replay", count=False)
+    elif k == "ret":
+        r = obs_ret((case["rid"], case["case"], ctx.seed))
+        print("replay observed:", {f: r.get(f) for f in ("err", "finite", "val", "cexact", "result", "shape_of_result")})
         judge(ctx, [r], "replay", count=False)
     else:
         raise MachineryError("unknown replay kind %r" % k)
